@@ -29,9 +29,17 @@ def run(ctx):
     if not ctx.quick:
         fine += [(list(c), w) for c in [("val", "val"), ("exc", "drop"), ("mdes", "val"), ("masg", "exc"), ("drop", "drop")] for w in ([], ["co"], ["bl"], ["cb"])]
     fl.run_mixes_fine(ctx, rp, fine, max_paths=400 if ctx.quick else None)
+    # other instantiations and entry points of the same protocol: future<int&> (state value_ref), a 64-byte tracked payload, and
+    # promise::bind(args...) whose closure is called, called and then destroyed, or destroyed without ever being called
+    rpr = fl.build_ref(ctx)
+    refjobs = [(["val", "exc"], ["hv"]), (["val", "drop"], ["co", "hv"]), (["val", "val"], ["bl"]), (["mdes", "val"], ["cb", "hv"]), (["val", "dtor"], ["hv"])]
+    fl.run_mixes(ctx, rpr, refjobs if not ctx.quick else refjobs[:3] + [refjobs[3 + ctx.seed % 2]], max_paths=200 if ctx.quick else None, tagp="ref")
+    rpb = fl.build_big(ctx)
+    bindjobs = [(["dtor"], ["co"]), (["val", "dtor"], ["bl"]), (["dtor"], ["hv", "cb"]), (["val", "dtor"], ["co", "hv"]), (["val"], ["bl", "co"])]
+    fl.run_mixes(ctx, rpb, bindjobs if not ctx.quick else bindjobs[:3], max_paths=200 if ctx.quick else None, tagp="bind", bind=True)
     # code -> spec: random schedules with more competing resolvers than the dumped graphs, validated as traces
     big = [(["val", "exc", "drop", "mdes"], ["co"]), (["val", "val", "exc", "dtor"], ["bl", "cb"]), (["drop", "mdes", "mdes", "val", "dtor"], [])]
     for k, (r, w) in enumerate(big if not ctx.quick else big[:2]):
         fl.explore_validate(ctx, rp, r, w, "tv%d" % k, 150 if ctx.quick else 1500)
     ctx.assume("compare_exchange_weak does not fail spuriously (x86-64 lock cmpxchg); weak CAS is executed as strong under the controlled scheduler")
-    ctx.assume("value type int; payload abstracted to the identity of the resolver that wrote it")
+    ctx.assume("value types int, int& and a 64-byte tracked object; payload abstracted to the identity of the resolver that wrote it")
